@@ -27,6 +27,10 @@ def family():
     ok("v2:content-headers", "V2 header with Content-MD5 and Content-Type",
        A.v2_header("PUT", extra_headers=[("content-md5", "1B2M2Y8AsgTpgAmY7PhCfg=="), ("content-type", "text/plain")]))
     ok("v2:presigned", "V2 presigned URL before its Expires", A.v2_presigned())
+    ok("v2:presigned-with-amz-date", "V2 presigned URL sent with an x-amz-date header (Expires, not the date, is signed)",
+       A.v2_presigned(extra_headers=[("x-amz-date", "Tue, 27 Mar 2007 19:36:42 +0000")]))
+    ok("v2:header-amz-date", "V2 header auth dated by x-amz-date instead of Date",
+       A.v2_header(extra_headers=[("x-amz-date", "Tue, 27 Mar 2007 21:20:26 +0000")]))
     no("v2:presigned-expired", "V2 presigned URL after its Expires", A.v2_presigned(expires_delta=-60))
     no("v2:alt-method", "method altered", A.v2_header(mutate=lambda rq: rq.update(method="HEAD")))
     no("v2:alt-path", "path altered", A.v2_header(mutate=lambda rq: rq.update(uri="/bkt/kez")))
